@@ -1,3 +1,5 @@
+import re
+
 from typing import Optional
 
 from pastel import Pastel
@@ -46,7 +48,9 @@ class AnsiFormatter(Formatter):
                 # Pastel returns a string without any tag untouched
                 formatted = pastel_style.apply(formatted)
 
-        return formatted
+        # Inside a styled span Pastel emits the backslash of an escaped "<" and
+        # the "<" as separate decorated pieces, so it does not remove the backslash
+        return re.sub(r"\\((?:\x1b\[[0-9;]*m)+)<", r"\1<", formatted)
 
     def remove_format(self, string):  # type: (str) -> str
         with self._formatter.colorized(False):
